@@ -140,8 +140,21 @@ def rule_R03_4(ctx):
     return r
 
 
+def rule_R03_5(ctx):
+    import c02
+    r = c02.rule_R02_5(ctx)
+    r.rule = "R03.5"
+    r.title = "explicit panic sites of the front end are dead or carry a justification that still checks"
+    r.necessary_for = "a reachable panic in the lexer aborts (exit 101) instead of rejecting the file"
+    r.violations = [v for v in r.violations if "lexer" in v.key or "parser" in v.key]
+    for v in r.violations:
+        v.rule = "R03.5"
+        v.key = v.key.replace("R02.5", "R03.5", 1)
+    return r
+
+
 def run(ctx):
-    return [rule_R03_1(ctx), rule_R03_2(ctx), rule_R03_3(ctx), rule_R03_4(ctx)]
+    return [rule_R03_1(ctx), rule_R03_2(ctx), rule_R03_3(ctx), rule_R03_4(ctx), rule_R03_5(ctx)]
 
 
 META = {
